@@ -380,6 +380,7 @@ impl BedParserStreamingIterator {
 //@sub /([\w\.]+\([^;\n]*\))\?;/ => (match \1 { Ok(v__) => v__, Err(e__) => return Err(pde_into(e__)) }); min=0
 //@sub /v\.0 == chrom\b/ => name_eq(&v.0, &chrom) min=0
 //@sub /v\.0 == curr_chrom\b/ => name_eq(&v.0, curr_chrom) min=0
+//@sub /v\.0 == (\w+)\b/ => name_eq(&v.0, (\1).as_str()) min=0
 //@sub /prev_chrom\.as_str\(\) >= chrom/ => name_ge(prev_chrom.as_str(), &chrom) min=0
 //@sub /prev_chrom\.as_str\(\) > chrom/ => name_gt(prev_chrom.as_str(), &chrom) min=0
 //@sub /"[^"\n]*"\s*\.to_string\(\)/ => err_msg() min=0
